@@ -93,9 +93,23 @@ def receiver_check(fn, enc, ref, text, parts):
     return None
 
 
+_SPLIT_TURN = [0]
+
+
 def split_case(fn, enc, ref, text):
     from aiosmpplib.utils import split_sms, split_sms_udh
     fail = None
+    # the splitters are functions of their arguments: every third text has been through the codecs before (both GSM codecs
+    # and the UCS2 codec, as when the same text was sent earlier with another encoding name) - the segments must not care
+    _SPLIT_TURN[0] += 1
+    if _SPLIT_TURN[0] % 3 == 0:
+        from aiosmpplib.codec import find_codec_info
+        for nm in ('gsm0338_packed', 'gsm0338', 'ucs2', 'gsm0338_packed'):
+            for eh in ('strict', 'replace'):
+                try:
+                    find_codec_info(nm).encode(text, eh)
+                except Exception:      # noqa
+                    pass
     try:
         if fn == 'sar':
             parts = split_sms(text, ENC_ARG[enc])
@@ -250,7 +264,12 @@ def session_segments_case(rng, forced=None):
         batch.append(SubmitSm(short_message=ptext, auto_message_payload=prev_kind == 'plain', log_id='prev',
                               esm_class=0x40 if prev_kind.startswith('udh') else 0))
     batch.append(m)
-    obs = c06.batch(batch, 'gsm0338')
+    # ... and where its 0..255 reference generator stands: the references around the wrap (254, 255, 0) included
+    want_ref = rng.choice((None, None, 253, 254, 255, 0))         # the reference this message is to draw
+    if forced and len(forced) > 3:
+        want_ref = forced[3]
+    ref_start = None if want_ref is None else (want_ref - 1 - (1 if prev_kind not in ('none', 'plain') else 0)) % 256
+    obs = c06.batch(batch, 'gsm0338', ref_start=ref_start)
     obs = obs[len(batch) - 1:] if obs and len(obs) >= len(batch) else []
     fail = None
     written = obs[0]['written'] if obs else []
@@ -352,7 +371,7 @@ def session_segments_case(rng, forced=None):
                         fail = 'reassembled text differs from the text submitted (%d vs %d characters)' % (len(got), len(text))
     line = '# session-segments udh=%d gsm=%d n=%d params=%d prev=%s' % (udh, gsm, n, n_own, prev_kind)
     return Case(line, line, ('session-seg', udh, gsm, min(len(written), 4), n_own, prev_kind), fail,
-                {'op': 'session-seg', 'udh': udh, 'gsm': gsm, 'n': n, 'previous message': prev_kind,
+                {'op': 'session-seg', 'udh': udh, 'gsm': gsm, 'n': n, 'previous message': prev_kind, 'reference drawn': want_ref,
                  'note': 'random text; re-run the check with the same seed'})
 
 
@@ -365,6 +384,9 @@ def generate(rng, tier):
         for gsm in (False, True):
             for prev in ('udh-ucs2', 'udh-gsm', 'sar-ucs2', 'sar-gsm'):
                 yield session_segments_case(rng, (udh, gsm, prev))
+            # the message that draws reference 255, and the one after the wrap
+            for rs in (255, 0):
+                yield session_segments_case(rng, (udh, gsm, rng.choice(('none', 'udh-gsm')), rs))
     refs = (0, 1, 255, 256, 65535)
     # (function, gsm?, ref-width) -> (single limit in cells, chunk size in cells)
     confs = []
